@@ -239,6 +239,16 @@ add("C35", "TLC on LosTraverse.tla (a line through a grid as a transition system
     "are compared.",
     TRUST + "float32 weights and the 1e-7 end-point offset of LOSResponse bound its comparison to 2e-5; Nufft/Gridder at eps=1e-12 compared to 1e-9; VariablePositionNufft and the parallax (sigmas) mode of LOSResponse are not covered.")
 
+add("C33", "TLC on PyTree.tla (every tree_math operation defined tree-wise and on the flat array; TLC checks the two agree) and AxisMap.tla (vmap semantics vs the move-to-front algorithm) + replay of every instance into nifty.re.Vector / tree_math and smap / lmap / jax.vmap",
+    "PyTree.tla: five container shapes (dict with unsorted insertion order, tuple, list, nested) over integer and Gaussian-integer leaves; arithmetic with "
+    "trees and scalars on either side, floor division and modulo with Python semantics, comparisons, conj/real/imag, where, sum/size/dot/vdot/norms/"
+    "min/max/any/all are specified twice (recursion over the tree, flat concatenation in JAX's leaf order) and TLC checks equality on all 750 instances; "
+    "each instance is replayed exactly into Vector operators and the tree_math functions, including the structure of the result. AxisMap.tla: mapping "
+    "f over input axes (positive, negative, None) into output axes (incl. None = batch-constant) defined directly (Take/Stack) and by the library's "
+    "move-to-front algorithm, equal on all instances; smap and lmap are compared with the expected arrays for tuple axes, a single axis, per-leaf axes of a "
+    "dict argument and of a dict result; jax.vmap must reproduce the specification (otherwise machinery failure).",
+    TRUST + "leaves are 1-d; arrays of rank 3 with sizes (2,3,2); four function shapes (elementwise, contraction, two outputs, batch-constant output).")
+
 
 def main():
     props = [json.loads(l) for l in open(os.path.join(HERE, "properties.jsonl"))]
